@@ -502,3 +502,41 @@ Proof.
 Qed.
 
 End Equations.
+
+(** * a non-trivial instance of the hypotheses *)
+(** labels: 0 = S (nonterminal, arity 0), 1 = Y (nonterminal, arity 1), 2 = t (terminal, binary);
+    S -> t(n0, n1) Y(n1);  Y(n0) -> t(n0, n1).  Unfolded: S -> t(n0, n1) t(n1, n2). *)
+Definition ex_rr : rule := {| r_lhs := 0; r_nodes := [0; 0]; r_edges := [(2, [0; 1]); (1, [1])]; r_ext := [] |}.
+Definition ex_c : rule := {| r_lhs := 1; r_nodes := [0; 0]; r_edges := [(2, [0; 1])]; r_ext := [0] |}.
+Definition ex_G : grammar :=
+  {| g_doms := [2]; g_labels := [(false, []); (false, [0]); (true, [0; 0])]; g_rules := [ex_rr; ex_c]; g_start := 0 |}.
+
+Example unfolding_example : unfolding ex_G 0 ex_rr [(2, [0; 1])] 1 [1] [] ex_c.
+Proof.
+  constructor; try reflexivity.
+  - constructor; cbn.
+    + intros u [].
+    + intros ed u [<-|[]] [<-|[<-|[]]]; lia.
+    + intros u [<-|[]]; lia.
+    + intros u [<-|[]]; lia.
+    + intros ed u [<-|[]] [<-|[<-|[]]]; lia.
+    + constructor; [intros []|constructor].
+    + reflexivity.
+    + intros [|k] Hk; [reflexivity|cbn in Hk; lia].
+  - discriminate.
+  - intros ed [<-|[]]. discriminate.
+  - intros ed [<-|[]]. discriminate.
+  - intros [|[|k]] r' Hk Hne; try congruence.
+    + cbn in Hk. injection Hk as <-. intros ed [<-|[]]. discriminate.
+    + destruct k; discriminate.
+Qed.
+Example unfolded_example :
+  g_rules (unfolded ex_G 0 ex_rr [(2, [0; 1])] [1] [] ex_c)
+  = [ {| r_lhs := 0; r_nodes := [0; 0; 0]; r_edges := [(2, [0; 1]); (2, [1; 2])]; r_ext := [] |}; ex_c ].
+Proof. reflexivity. Qed.
+Example ranked_example : ranked ex_G (fun l => match l with 0 => 2 | 1 => 1 | _ => 0 end).
+Proof.
+  intros r [<-|[<-|[]]] _ ed; cbn.
+  - intros [<-|[<-|[]]]; cbn; [discriminate|lia].
+  - intros [<-|[]]; cbn. discriminate.
+Qed.
